@@ -113,7 +113,7 @@ def do_event(s, ev, bs):
     return getattr(s, cmd)(lba, n, **kw)
 
 
-def observe(s, model, bs, where, tr):
+def observe(s, model, bs, where, tr, ident=(b"VERIF   ", b"SIMULATED TARGET", b"0001")):
     """read everything back; returns (violations, observation tuple)"""
     out = []
     obs = []
@@ -153,13 +153,18 @@ def observe(s, model, bs, where, tr):
             out.append(("%s/readcapacity10" % tr, "%s: READ CAPACITY(10) -> %r" % (where, r10)))
         if r16.get("returned_lba") != BIG - 1 or r16.get("block_length") != bs:
             out.append(("%s/readcapacity16" % tr, "%s: READ CAPACITY(16) -> %r" % (where, r16)))
-        if (bytes(inq.get("t10_vendor_identification", b"")) != b"VERIF   " or bytes(inq.get("product_identification", b"")) != b"SIMULATED TARGET"
-                or bytes(inq.get("product_revision_level", b"")) != b"0001" or inq.get("peripheral_device_type") != 0):
-            out.append(("%s/inquiry" % tr, "%s: INQUIRY -> %r" % (where, {k: inq[k] for k in list(inq)[:6]})))
+        if (bytes(inq.get("t10_vendor_identification", b"")) != ident[0] or bytes(inq.get("product_identification", b"")) != ident[1]
+                or bytes(inq.get("product_revision_level", b"")) != ident[2] or inq.get("peripheral_device_type") != 0):
+            out.append(("%s/inquiry" % tr, "%s: INQUIRY reports %r / %r / %r, the target is %r" % (
+                where, bytes(inq.get("t10_vendor_identification", b"")), bytes(inq.get("product_identification", b"")),
+                bytes(inq.get("product_revision_level", b"")), ident)))
         obs.append((r10.get("returned_lba"), r16.get("returned_lba"), r16.get("block_length")))
     except Exception as e:   # noqa: BLE001
         out.append(("%s/identity/raises" % tr, "%s: capacity/inquiry raised %s: %s" % (where, type(e).__name__, e)))
     return out, tuple(obs)
+
+
+_SERIAL = 0
 
 
 def run_history(bs, hist, check_all=True):
@@ -167,7 +172,16 @@ def run_history(bs, hist, check_all=True):
     install.ensure()
     out = []
     model = Model()
-    rigs = [harness.Rig(tr, 0x00, blocksize=bs, nblocks=BIG) for tr in ("sgio", "iscsi")]
+    global _SERIAL
+    _SERIAL += 1
+    # every target has its own identity, so an answer remembered from another device or an earlier history is visible
+    ident = {tr: (("VSG%05d" % (_SERIAL % 100000)).encode() if tr == "sgio" else ("VIS%05d" % (_SERIAL % 100000)).encode(),
+                  ("TARGET %s %06d" % (tr[:2].upper(), _SERIAL % 1000000)).encode().ljust(16), ("%04d" % (_SERIAL % 10000)).encode())
+             for tr in ("sgio", "iscsi")}
+    rigs = [harness.Rig(tr, 0x00, blocksize=bs, nblocks=BIG, vendor=ident[tr][0], product=ident[tr][1], revision=ident[tr][2])
+            for tr in ("sgio", "iscsi")]
+    for r in rigs:
+        r.ident = ident[r.transport]
     try:
         fac = [r.facade(blocksize=bs) for r in rigs]
         for i, ev in enumerate(hist):
@@ -180,7 +194,7 @@ def run_history(bs, hist, check_all=True):
         where = "after %r (block size %d)" % (hist, bs)
         observations = []
         for r, s in zip(rigs, fac):
-            v, o = observe(s, model, bs, where, r.transport)
+            v, o = observe(s, model, bs, where, r.transport, r.ident)
             out += v
             observations.append(o)
             probes = sorted(x for x in (set(model.probes()) | set(r.target.disk)) if 0 <= x < BIG)
